@@ -30,9 +30,10 @@
      same neighbours, y-scale, loss table and (given the same missing end
      points) the same loss(real=True).  This subsumes order independence and
      batch = incremental for `losses`.
+     C11_l1d_losses_function_of_data_vec: the same for vector outputs of one
+     length (the y box is the componentwise attained min / max of the data).
    What is missing (`_partial`): the table losses_combined (interpolated
-   pieces), hence loss(real=False) and ask(); vector outputs for the loss
-   table.  On the real class
+   pieces), hence loss(real=False) and ask().  On the real class
    these are covered by the oracle of harness/avh/props/c11.py and the
    bit-exact correspondence only. *)
 From Coq Require Import Permutation ZArith QArith Qcanon Lia.
@@ -311,6 +312,61 @@ Proof.
   vm_compute. discriminate.
 Qed.
 
+
+(* the same for vector-valued functions (values of one length k, no NaN) *)
+Theorem C11_l1d_losses_function_of_data_vec :
+  forall (num : Type) (add sub mul div : num -> num -> num) (ltb eqb : num -> num -> bool)
+         (zero one inf neg_inf : num) (is_nan is_inf : num -> bool) (round12 : num -> num) (of_nat : nat -> num)
+         (L : list (option num) -> list (option (L1D.Y num)) -> num) (P : L1D.params num),
+  L1DOrder.OrdLaws ltb eqb -> (forall z, is_nan z = false) ->
+  L1DBracket.SubLaws sub ltb zero -> (forall x, mul (L1D.factor P) x = x) ->
+  let run := @L1D.run num add sub mul div ltb eqb zero one inf neg_inf is_nan is_inf round12 of_nat L P in
+  let init := @L1D.init num sub zero inf neg_inf P in
+  let clegal_v := @L1DCanonical.clegal_v num add sub mul div ltb eqb zero one inf neg_inf is_nan is_inf round12 of_nat L P in
+  let loss := @L1D.loss num sub div ltb eqb inf is_nan is_inf round12 P in
+  forall k h1 h2, clegal_v k init h1 = true -> clegal_v k init h2 = true ->
+  L1D.data (run init h1) = L1D.data (run init h2) ->
+  L1D.nb (run init h1) = L1D.nb (run init h2) /\ L1D.sy (run init h1) = L1D.sy (run init h2) /\
+  L1D.los (run init h1) = L1D.los (run init h2) /\
+  (L1D.missing_bounds eqb P (run init h1) = L1D.missing_bounds eqb P (run init h2) ->
+   loss (run init h1) true = loss (run init h2) true).
+Proof.
+  intros num add sub mul div ltb eqb zero one inf neg_inf is_nan is_inf round12 of_nat L P OL NoNaN SL F1.
+  exact (@L1DCanonical.losses_function_of_data_v num add sub mul div ltb eqb zero one inf neg_inf is_nan is_inf round12 of_nat L P OL NoNaN SL F1).
+Qed.
+
+Definition fv_L (xs : list (option Z)) (ys : list (option (L1D.Y Z))) : Z :=
+  match xs, ys with
+  | [Some a; Some b], [Some (L1D.YV [u1; u2]); Some (L1D.YV [v1; v2])] => ((b - a) + (v1 - u1) * (v1 - u1) + 3 * (v2 - u2) * (v2 - u2))%Z
+  | _, _ => 0%Z
+  end.
+Definition fv_h1 : list (L1D.op Z) :=
+  [L1D.Tell 0%Z (L1D.YV [5; 1]%Z); L1D.TellPending 30%Z; L1D.Tell 100%Z (L1D.YV [9; (-4)]%Z); L1D.Ask 2 true;
+   L1D.Tell 50%Z (L1D.YV [400; 2]%Z); L1D.RemoveUnfinished; L1D.Tell 25%Z (L1D.YV [1; 70]%Z); L1D.TellPending 70%Z].
+Definition fv_h2 : list (L1D.op Z) :=
+  [L1D.TellPending 0%Z; L1D.TellPending 100%Z;
+   L1D.TellMany [(25%Z, L1D.YV [1; 70]%Z); (100%Z, L1D.YV [9; (-4)]%Z); (0%Z, L1D.YV [5; 1]%Z); (50%Z, L1D.YV [400; 2]%Z)] true].
+Local Notation fv_run := (@L1D.run Z Z.add Z.sub Z.mul Z.div Z.ltb Z.eqb 0%Z 1%Z 1000000%Z (-1000000)%Z
+                        (fun _ => false) (fun _ => false) (fun x => x) Z.of_nat fv_L fd_P).
+Local Notation fv_clegal := (@L1DCanonical.clegal_v Z Z.add Z.sub Z.mul Z.div Z.ltb Z.eqb 0%Z 1%Z 1000000%Z (-1000000)%Z
+                        (fun _ => false) (fun _ => false) (fun x => x) Z.of_nat fv_L fd_P).
+Example C11_l1d_function_of_data_vec_example :
+  fv_clegal 2 fd_init fv_h1 = true /\ fv_clegal 2 fd_init fv_h2 = true /\
+  L1D.data (fv_run fd_init fv_h1) = L1D.data (fv_run fd_init fv_h2) /\
+  L1D.los (fv_run fd_init fv_h1) = L1D.los (fv_run fd_init fv_h2) /\
+  map snd (L1D.los (fv_run fd_init fv_h1)) <> [0; 0; 0]%Z.
+Proof.
+  assert (H1 : fv_clegal 2 fd_init fv_h1 = true) by (vm_compute; reflexivity).
+  assert (H2 : fv_clegal 2 fd_init fv_h2 = true) by (vm_compute; reflexivity).
+  assert (Hd : L1D.data (fv_run fd_init fv_h1) = L1D.data (fv_run fd_init fv_h2)) by (vm_compute; reflexivity).
+  pose proof (C11_l1d_losses_function_of_data_vec Z Z.add Z.sub Z.mul Z.div Z.ltb Z.eqb 0%Z 1%Z 1000000%Z (-1000000)%Z
+             (fun _ => false) (fun _ => false) (fun x => x) Z.of_nat fv_L fd_P L1DOrder_Z (fun _ => eq_refl)
+             L1DBracket.SubLaws_Z (fun a => Z.mul_1_l a)) as T.
+  cbv zeta in T. specialize (T 2 fv_h1 fv_h2 H1 H2 Hd). destruct T as [_ [_ [T3 _]]].
+  split; [exact H1|]. split; [exact H2|]. split; [exact Hd|]. split; [exact T3|].
+  vm_compute. discriminate.
+Qed.
+
 Print Assumptions C11_seq_order_irrelevant.
 Print Assumptions C11_avg_order_irrelevant.
 Print Assumptions C11_avg_order_irrelevant_Z.
@@ -324,3 +380,5 @@ Print Assumptions C11_l1d_losses_order_irrelevant.
 Print Assumptions C11_l1d_losses_order_irrelevant_Qc.
 Print Assumptions C11_l1d_losses_function_of_data.
 Print Assumptions C11_l1d_function_of_data_example.
+Print Assumptions C11_l1d_losses_function_of_data_vec.
+Print Assumptions C11_l1d_function_of_data_vec_example.
